@@ -124,24 +124,102 @@ Qed.
 (* ------------------------------------------------------------------------------------------ *)
 (* 2. splitlines: the lines concatenate to the source *)
 
-Lemma split_lines_aux_concat : forall n s cur, (length s <= n)%nat ->
-  concat (split_lines_aux cur s) = rev cur ++ s.
+Lemma split_at_concat : forall brk n s cur, (length s <= n)%nat ->
+  concat (split_at brk cur s) = rev cur ++ s.
 Proof.
-  induction n as [|n IH]; intros s cur Hlen.
-  - destruct s; [|simpl in Hlen; lia]. cbn [split_lines_aux]. destruct cur; cbn [concat]; rewrite ?app_nil_r; reflexivity.
+  intros brk. induction n as [|n IH]; intros s cur Hlen.
+  - destruct s; [|simpl in Hlen; lia]. cbn [split_at]. destruct cur; cbn [concat]; rewrite ?app_nil_r; reflexivity.
   - destruct s as [|c tl].
-    + cbn [split_lines_aux]. destruct cur; cbn [concat]; rewrite ?app_nil_r; reflexivity.
-    + cbn [length] in Hlen. cbn [split_lines_aux].
+    + cbn [split_at]. destruct cur; cbn [concat]; rewrite ?app_nil_r; reflexivity.
+    + cbn [length] in Hlen. cbn [split_at].
       destruct (N.eqb c 13) eqn:Ec.
       * destruct tl as [|d tl'].
         -- cbn [concat rev]. rewrite ?app_nil_r, <- ?app_assoc. reflexivity.
         -- cbn [length] in Hlen. destruct (N.eqb d 10) eqn:Ed; cbn [concat]; rewrite IH by (cbn [length]; lia);
              cbn [rev app]; rewrite <- ?app_assoc; reflexivity.
-      * destruct (is_break c); cbn [concat]; rewrite IH by lia; cbn [rev app]; rewrite <- ?app_assoc; reflexivity.
+      * destruct (brk c); cbn [concat]; rewrite IH by lia; cbn [rev app]; rewrite <- ?app_assoc; reflexivity.
 Qed.
 
 Theorem split_lines_concat : forall s, concat (split_lines s) = s.
-Proof. intros s. unfold split_lines. rewrite (split_lines_aux_concat (length s)) by lia. reflexivity. Qed.
+Proof. intros s. unfold split_lines. rewrite (split_at_concat _ (length s)) by lia. reflexivity. Qed.
+
+Theorem str_splitlines_concat : forall s, concat (str_splitlines s) = s.
+Proof. intros s. unfold str_splitlines. rewrite (split_at_concat _ (length s)) by lia. reflexivity. Qed.
+
+(* ---- the line structure of split_lines is the tokenizer's: every line is a body without \r and \n
+        followed by one of the terminators \n, \r, \r\n -- or by nothing, and then it is the last line *)
+Definition noeol (t : text) : bool := forallb (fun c => negb (is_eol c)) t.
+Definition TERMINATORS : list text := [[10]; [13]; [13; 10]]%N.
+
+Inductive py_line : text -> Prop :=
+| py_line_terminated body term : noeol body = true -> In term TERMINATORS -> py_line (body ++ term)
+| py_line_last body : noeol body = true -> body <> [] -> py_line body.
+
+(* all lines are py_lines, and an unterminated one can only be the last *)
+Inductive py_lines : list text -> Prop :=
+| pls_nil : py_lines []
+| pls_last body : noeol body = true -> body <> [] -> py_lines [body]
+| pls_cons body term rest : noeol body = true -> In term TERMINATORS -> py_lines rest ->
+    py_lines ((body ++ term) :: rest).
+
+Lemma noeol_snoc : forall t c, noeol t = true -> is_eol c = false -> noeol (t ++ [c]) = true.
+Proof.
+  intros t c Ht Hc. unfold noeol in *. rewrite forallb_app, Ht. cbn. rewrite Hc. reflexivity.
+Qed.
+
+Lemma split_eol_py_lines : forall n s cur, (length s <= n)%nat -> noeol (rev cur) = true ->
+  py_lines (split_at (N.eqb 10) cur s).
+Proof.
+  induction n as [|n IH]; intros s cur Hlen Hcur.
+  - destruct s; [|simpl in Hlen; lia]. cbn [split_at]. destruct cur as [|x cur]; [constructor|].
+    apply pls_last; [exact Hcur|]. cbn [rev]. intros H. apply app_eq_nil in H as [_ H]. discriminate.
+  - destruct s as [|c tl].
+    + cbn [split_at]. destruct cur as [|x cur]; [constructor|].
+      apply pls_last; [exact Hcur|]. cbn [rev]. intros H. apply app_eq_nil in H as [_ H]. discriminate.
+    + cbn [length] in Hlen. cbn [split_at].
+      destruct (N.eqb c 13) eqn:Ec.
+      * apply N.eqb_eq in Ec. subst c. destruct tl as [|d tl'].
+        -- cbn [rev]. apply (pls_cons (rev cur) [13%N] []); [exact Hcur | cbn; auto | constructor].
+        -- cbn [length] in Hlen. destruct (N.eqb d 10) eqn:Ed.
+           ++ apply N.eqb_eq in Ed. subst d. cbn [rev]. rewrite <- app_assoc. cbn [app].
+              apply (pls_cons (rev cur) [13%N; 10%N]); [exact Hcur | cbn; auto |].
+              apply IH; [lia | reflexivity].
+           ++ cbn [rev]. apply (pls_cons (rev cur) [13%N]); [exact Hcur | cbn; auto |].
+              apply IH; [cbn [length]; lia | reflexivity].
+      * destruct (N.eqb 10 c) eqn:E10.
+        -- apply N.eqb_eq in E10. subst c. cbn [rev].
+           apply (pls_cons (rev cur) [10%N]); [exact Hcur | cbn; auto |].
+           apply IH; [lia | reflexivity].
+        -- apply IH; [lia|]. cbn [rev]. apply noeol_snoc; [exact Hcur|].
+           unfold is_eol. rewrite Ec. rewrite N.eqb_sym, E10. reflexivity.
+Qed.
+
+(* T20.2: every line-break point of core.split_lines is one of \n, \r\n, \r *)
+Theorem split_lines_py_lines : forall s, py_lines (split_lines s).
+Proof. intros s. unfold split_lines. apply (split_eol_py_lines (length s)); [lia | reflexivity]. Qed.
+
+Lemma py_lines_each : forall ls, py_lines ls -> forall l, In l ls -> py_line l.
+Proof.
+  induction 1 as [|body Hb Hne|body term rest Hb Ht Hrest IH]; intros l Hin.
+  - contradiction.
+  - destruct Hin as [<-|[]]. apply py_line_last; assumption.
+  - destruct Hin as [<-|Hin]; [apply py_line_terminated; assumption | apply IH; exact Hin].
+Qed.
+
+(* str.splitlines is a different, finer line structure: it cuts a one-line string literal in two *)
+Theorem str_splitlines_not_py_lines :
+  exists s, str_splitlines s <> split_lines s /\ ~ py_lines (str_splitlines s) .
+Proof.
+  (* s = "a\x0cb\n" *)
+  exists [97; 12; 98; 10]%N. split.
+  - vm_compute. discriminate.
+  - vm_compute. intros H. inversion H as [| |body term rest Hb Ht Hrest Heq]; subst.
+    inversion Hrest as [|body' Hb' Hne' Heq'|body' term' rest' Hb' Ht' Hrest' Heq']; subst.
+    + (* [98;10] would be an unterminated body containing \n *) vm_compute in Hb'. discriminate.
+    + (* first line [97;12] = body ++ term with term a terminator *)
+      destruct Ht as [<-|[<-|[<-|[]]]];
+        repeat (destruct body as [|? body]; try discriminate).
+Qed.
 
 Lemma concat_in_split : forall (ls : list text) l, In l ls -> exists a b, concat ls = a ++ l ++ b.
 Proof.
@@ -158,6 +236,18 @@ Theorem skip_line_returns_source :
 Proof.
   intros rest src l Hin Hocc. unfold format_code_head.
   destruct (concat_in_split _ _ Hin) as (a & b & Hc). rewrite split_lines_concat in Hc.
+  assert (H : skip_search src = true).
+  { apply skip_search_iff. rewrite Hc. apply Occurs_extend. exact Hocc. }
+  rewrite H. reflexivity.
+Qed.
+
+(* the same for the finer pieces of str.splitlines (however the "line" is delimited) *)
+Theorem skip_strline_returns_source :
+  forall (rest : text -> text) src l,
+    In l (str_splitlines src) -> Occurs [SKIP_FILE] l -> format_code_head rest src = src.
+Proof.
+  intros rest src l Hin Hocc. unfold format_code_head.
+  destruct (concat_in_split _ _ Hin) as (a & b & Hc). rewrite str_splitlines_concat in Hc.
   assert (H : skip_search src = true).
   { apply skip_search_iff. rewrite Hc. apply Occurs_extend. exact Hocc. }
   rewrite H. reflexivity.
@@ -183,11 +273,17 @@ Proof.
     rewrite Hs, app_length. lia.
 Qed.
 
-Lemma ignore_ranges_in : forall src r,
-  In r (ignore_ranges src) -> exists l, In (r, l) (line_ranges 0 (split_lines src)) /\ ignore_line l = true.
+Lemma in_combine_seq_r : forall (X : Type) (l : list X) k i x, In (i, x) (combine (seq k (length l)) l) -> In x l.
+Proof. intros X l k i x H. eapply in_combine_r. exact H. Qed.
+
+Lemma ignore_entries_in : forall src coms e,
+  In e (ignore_entries src coms) ->
+  In e (line_ranges 0 (split_lines src)) /\ ignore_line (snd e) = true.
 Proof.
-  intros src r H. unfold ignore_ranges in H. apply in_map_iff in H as ([r' l] & Hr & H). simpl in Hr. subst r'.
-  apply filter_In in H as [H1 H2]. exists l. split; assumption.
+  intros src coms e H. unfold ignore_entries in H. cbv zeta in H.
+  apply in_map_iff in H as ([i e'] & He & H). simpl in He. subst e'.
+  apply filter_In in H as [H1 H2]. simpl in H2. apply andb_true_iff in H2 as [H2 _].
+  split; [eapply in_combine_seq_r; exact H1 | exact H2].
 Qed.
 
 (* ------------------------------------------------------------------------------------------ *)
@@ -293,41 +389,72 @@ Proof.
     apply Nat.ltb_ge; lia.
 Qed.
 
-Lemma ignored_false_in : forall (il : list range) (r x : range),
-  ignored il x = false -> In r il -> overlaps x r = false.
+(* an insertion point that does not touch the line lies before its first column or after its last *)
+Lemma touches_false_misses : forall (rw : range * text) (e : range * text),
+  (0 <= fst (fst rw))%Z -> (0 <= fst (fst e))%Z ->
+  touches (fst rw) e = false ->
+  misses N (Z.to_nat (fst (fst e))) (Z.to_nat (snd (fst e))) (to_nrw N rw).
 Proof.
-  intros il r x H Hin. destruct (overlaps x r) eqn:E; [|reflexivity].
-  assert (Hex : ignored il x = true) by (unfold ignored; apply existsb_exists; exists r; split; assumption).
-  rewrite Hex in H. discriminate.
+  intros [[s e0] n] [[a b] l] Hs Ha H. unfold touches in H. cbn [fst snd] in *.
+  destruct (s =? e0)%Z eqn:Eempty.
+  - apply Z.eqb_eq in Eempty. subst e0.
+    apply orb_false_iff in H as [H _].
+    unfold misses, to_nrw, nstart, nend. cbn [fst snd].
+    apply andb_false_iff in H as [H|H]; apply andb_false_iff.
+    + apply Z.leb_gt in H. right. apply Nat.ltb_ge. lia.
+    + apply Z.ltb_ge in H. left. apply Nat.ltb_ge. lia.
+  - apply (Z_overlap_misses N ((s, e0), n) a b Hs Ha H).
 Qed.
 
 Theorem ignored_line_survives :
-  forall (src : text) (rws : list (range * text)) (r : range) (l : text),
-    In (r, l) (line_ranges 0 (split_lines src)) -> ignore_line l = true ->
+  forall (src : text) (coms : option (list nat)) (rws : list (range * text)) (r : range) (l : text),
+    In (r, l) (ignore_entries src coms) ->
     chain_ok N (length src) 0 (map (to_nrw N) rws) ->
-    (forall rw, In rw rws -> (0 <= fst (fst rw))%Z /\ has_ignore src (fst rw) = false) ->
+    (forall rw, In rw rws -> (0 <= fst (fst rw))%Z /\ has_ignore src coms (fst rw) = false) ->
     exists pre post, build N 0 src (map (to_nrw N) rws) = pre ++ l ++ post.
 Proof.
-  intros src rws r l Hin Hign Hchain Hrws.
+  intros src coms rws r l Hent Hchain Hrws.
+  destruct (ignore_entries_in _ _ _ Hent) as [Hin Hign]. cbn [snd] in Hign.
   destruct (line_ranges_slice _ _ _ _ Hin) as (X & Y & Hc & Hs & He).
   rewrite split_lines_concat in Hc.
   assert (Hl : l <> []).
   { intros ->. vm_compute in Hign. discriminate. }
-  assert (Hir : In r (ignore_ranges src)).
-  { unfold ignore_ranges. apply in_map_iff. exists (r, l). split; [reflexivity|].
-    apply filter_In. split; [exact Hin | exact Hign]. }
   subst src.
   apply (build_keeps_segment N X l Y (map (to_nrw N) rws) 0%nat); [exact Hchain | lia | exact Hl |].
   intros q Hq. apply in_map_iff in Hq as (rw & <- & Hrw).
   destruct (Hrws rw Hrw) as [Hnn Hhi].
-  assert (Ho : overlaps (fst rw) r = false)
-    by (exact (ignored_false_in _ r _ Hhi Hir)).
+  assert (Ht : touches (fst rw) (r, l) = false).
+  { destruct (touches (fst rw) (r, l)) eqn:E; [|reflexivity].
+    assert (Hex : has_ignore (X ++ l ++ Y) coms (fst rw) = true)
+      by (unfold has_ignore; apply existsb_exists; exists (r, l); split; assumption).
+    exact (eq_trans (eq_sym Hex) Hhi). }
   destruct r as [a b]. simpl in Hs, He.
-  pose proof (Z_overlap_misses N rw a b Hnn ltac:(lia) Ho) as Hm.
+  pose proof (touches_false_misses rw ((a, b), l) Hnn ltac:(simpl; lia) Ht) as Hm.
+  cbn [fst snd] in Hm.
   replace (Z.to_nat a) with (length X) in Hm by lia.
   replace (Z.to_nat b) with (length X + length l)%nat in Hm by lia.
   exact Hm.
 Qed.
+
+(* the repaired recogniser refuses strictly more than Range.overlaps with the line: in particular what
+   the scheduler model of C10 (SchedModel.ignored, overlap only) drops is dropped here too *)
+Theorem has_ignore_extends_overlap : forall src coms r,
+  ignored (map fst (ignore_entries src coms)) r = true ->
+  (fst r <> snd r) -> has_ignore src coms r = true.
+Proof.
+  intros src coms r H Hne. unfold ignored in H. apply existsb_exists in H as (x & Hin & Ho).
+  apply in_map_iff in Hin as ([[a b] l] & <- & Hin). unfold has_ignore. apply existsb_exists.
+  exists ((a, b), l). split; [exact Hin|]. unfold touches. cbn [fst snd] in *.
+  destruct (fst r =? snd r)%Z eqn:E; [apply Z.eqb_eq in E; contradiction | exact Ho].
+Qed.
+
+(* before repair 49868ec an insertion at the first column of an ignored line was not refused:
+   overlap alone does not see it, touches does *)
+Theorem insertion_at_line_start :
+  let src := [120; 32; 35; 112; 121; 114; 101; 102; 97; 99; 116; 58; 105; 103; 110; 111; 114; 101; 10; 121; 10]%N in
+  ignored (map fst (ignore_entries src None)) (0, 0)%Z = false /\ has_ignore src None (0, 0)%Z = true
+  /\ has_ignore src None (19, 19)%Z = false.
+Proof. repeat split; vm_compute; reflexivity. Qed.
 
 (* ------------------------------------------------------------------------------------------ *)
 (* non-vacuity *)
@@ -335,5 +462,6 @@ Example ignore_examples :
   ignore_line [120; 32; 35; 32; 112; 121; 114; 101; 102; 97; 99; 116; 58; 32; 105; 103; 110; 111; 114; 101; 10]%N = true
   /\ ignore_line [35; 112; 121; 114; 101; 102; 97; 99; 116; 160; 58; 9; 115; 107; 105; 112; 95; 102; 105; 108; 101]%N = true
   /\ ignore_line [35; 32; 112; 121; 114; 101; 102; 97; 99; 116; 58; 32; 105; 103; 110; 111; 114]%N = false
-  /\ split_lines [97; 13; 10; 98; 12; 99]%N = [[97; 13; 10]; [98; 12]; [99]]%N.
+  /\ str_splitlines [97; 13; 10; 98; 12; 99]%N = [[97; 13; 10]; [98; 12]; [99]]%N
+  /\ split_lines [97; 13; 10; 98; 12; 99]%N = [[97; 13; 10]; [98; 12; 99]]%N.
 Proof. repeat split; vm_compute; reflexivity. Qed.
